@@ -260,6 +260,9 @@ func (t *Term) eval(env []uint64) uint64 {
 		return t.val
 	case "var":
 		if int(t.id) < len(env) {
+			if t.bits == 0 {
+				return env[t.id] & 1
+			}
 			return mask(env[t.id], t.bits)
 		}
 		return 0
@@ -298,6 +301,9 @@ func (t *Term) eval1(id int32, v uint64) uint64 {
 		return t.val
 	case "var":
 		if t.id == id {
+			if t.bits == 0 {
+				return v & 1
+			}
 			return mask(v, t.bits)
 		}
 		return 0
